@@ -379,11 +379,11 @@ def gen(rng, tier, dist):
                 # (after an array the scanner takes the array's last element: finding
                 # range-after-array, generated on purpose now and then)
                 tt0 = re.sub(r"(^|\s)%[^\n]*", " ", text).rstrip(" \n\t")
+                # (a range after an array that ends in an open range: the closing bracket is no
+                # neighbour for the checker since fix D31; generated, with the array's last slot of
+                # another type so that the scanner finds no neighbour either)
                 if " ... " in t and not t.startswith("[") and tt0.endswith("]") and tt0[:-1].rstrip(" \n\t").endswith("..."):
-                    # a range after an array that ends in an open range: the checker's search for a
-                    # previous ellipsis ends inside the array (class range-after-array)
-                    text += "nil" + sep(rng)
-                    slots.append("N")
+                    bump("range-after-open-array")
                 if " ... " in t and slots and slots[-1][0] == sl[-1][0]:
                     tt = text.rstrip(" \n\t")
                     after_array = tt.endswith("]") and not tt[:-1].rstrip(" \n\t").endswith("...")
